@@ -470,6 +470,7 @@ def run(ctx: RuleContext, p: Program) -> None:
     ctx.try_rule(rule_reg_rule, p, g, 'REG-RULE')
     ctx.try_rule(rule_rawtext_cover, p, g, 'RAWTEXT-COVER')
     ctx.try_rule(rule_split_total, p, g, 'SPLIT-TOTAL')
+    ctx.try_rule(rule_gram_eol, p, g, 'GRAM-EOL')
     ctx.not_decided += ['from_value(v).value == v for arbitrary string values', 'decimal value domain of Number (str(Decimal) may use '
                         'exponents; callers pass abs(value))', 'that produced text lexes as exactly one token in context']
     ctx.assumptions += ['frozen table of str.splitlines break characters', 'frozen strftime table for this platform (%Y unpadded '
@@ -621,3 +622,27 @@ def _split_seps(v: ast.AST, raw: str, env: dict[str, ast.AST], depth: int = 0) -
             # `A if A in raw else B`: a word is read with A when it contains A, else with B; with digit-only fields these are the two cases
             return [_esc(str(s.body.value)), _esc(str(s.orelse.value))]
     return None
+
+
+def rule_gram_eol(ctx: RuleContext, p: Program, g: rx.Grammar, rid: str) -> None:
+    ctx.rule(rid, 'no terminal whose token class derives a value from its text (_parse_value) has a lexeme that ends in a character the '
+                  'line terminator can start with: in a CRLF file the carriage return belongs to the _NEWLINE token, so re-rendering the '
+                  'token from a new value cannot change the line ending (NFA intersection, with a witness word)')
+    nl = g.terminal_nfa('_NEWLINE')
+    firsts = sorted({chr(cp) for a, b in rx.first_chars(nl) for cp in range(a, min(b, a + 4) + 1)}) if hasattr(rx, 'first_chars') else ['\r', '\n']
+    n = 0
+    for c in p.registered('token_model'):
+        rule = p.class_const(c, 'RULE')
+        tname = rule.value if isinstance(rule, ast.Constant) else None
+        if tname not in g.terminals or tname == '_NEWLINE' or p.try_method(c, '_parse_value') is None:
+            continue
+        t = g.terminal_nfa(tname)
+        cls = ''.join(_esc(ch) for ch in firsts)
+        ok, w = rx.included(t, rx.from_regex(f'(?:.*[^{cls}])?', re.S))
+        n += 1
+        ctx.check(ok, rid, f'{c.module.name.split(".", 1)[1]}:{c.name}', f'terminal {tname}',
+                  f'terminal {tname} admits {w!r}, which ends in a line-terminator character: in a CRLF file the "\\r" before "\\n" is lexed into '
+                  f'this token instead of the newline, becomes part of its value, and is lost (the line ending changes to LF) as soon as the value '
+                  f'is assigned', c.where, note=f'no lexeme of {tname} ends in {firsts!r}')
+    if n < 10:
+        raise AnalysisError(f'GRAM-EOL: only {n} value-bearing terminals examined')
